@@ -93,7 +93,7 @@ def _same(a, b):
 class C04(core.Check):
     ID = 'C04'
     RUN_MODULE = 'Corr.Run_Dom'
-    RUN_FN = 'run_dom'
+    RUN_FN = 'run_dom_nav'
     CASE_TYPE = dc.CASE_TYPE
     SHARD = 150
     RULE = ('mutation histories (appendChild, appendText, appendBlock(s), insertBefore, insertAfter, removeChild(ren), removeBlock(s), '
@@ -160,7 +160,38 @@ class C04(core.Check):
     def run_impl(self, case):
         if case.get('oracle_only'):
             return None
-        return dc.run_case(case)
+        return dc.run_case(case) + '\x1e' + self._nav_dump(case)
+
+    @staticmethod
+    def _nav_dump(case):
+        """navigation properties of every element of the final world"""
+        w = dc.World(case)
+        for op in case['ops']:
+            w.apply(op)
+
+        def show(x):
+            if x is None:
+                return '-'
+            if dc.is_tag(x):
+                return 'E%d' % w.rk(x)
+            return 'T' + core.hx(x)
+
+        def nav(f):
+            try:
+                return show(f())
+            except Exception:
+                return '!'
+        out = []
+        for e in w.all_elements():
+            try:
+                p = e.getPeers()
+                peers = '-' if p is None else '[%s]' % ','.join(str(w.rk(x)) for x in p)
+            except Exception:
+                peers = '!'
+            out.append(','.join([str(w.rk(e)), nav(lambda: e.firstChild), nav(lambda: e.lastChild), nav(lambda: e.firstElementChild),
+                                 nav(lambda: e.lastElementChild), nav(lambda: e.nextSibling), nav(lambda: e.previousSibling),
+                                 nav(lambda: e.nextElementSibling), nav(lambda: e.previousElementSibling), peers, str(e.childElementCount)]))
+        return ';'.join(out)
 
     def coq_case(self, case):
         return dc.coq_case(case)
